@@ -184,24 +184,74 @@ def check_kinds_writer(ctx) -> None:
 
 
 def _check_member_ref(ctx, fn: FuncInfo, call: ast.Call) -> None:
-    """Group members: each `if "<Class>" in m_type:` branch applies the replacement of that class."""
+    """Group members: the body of the member loop is evaluated for a member of each class with an f_replace table of
+    tagged functions - the reference written is the member's id passed through the replacement of its own kind (and
+    through none when the table lacks it). No spelling of the dispatch is prescribed."""
     loop = _innermost_loop(call, fn)
-    seen = set()
-    for n in ast.walk(loop) if loop is not None else []:
-        if isinstance(n, ast.If) and isinstance(n.test, ast.Compare) and isinstance(n.test.left, ast.Constant) and isinstance(n.test.ops[0], ast.In):
-            cname = n.test.left.value
-            want = CLASS_KIND.get(cname)
-            if want is None:
-                continue
-            reps = [_replacement_kind(x.value) for x in ast.walk(n) if isinstance(x, ast.Assign) and _replacement_kind(x.value) is not None]
-            seen.add(want)
-            if reps == [(want, True)]:
-                ctx.ok("C10.kinds", fn, n, f"group member of class {cname}: id through f_replace[F_{want}_REV]")
-            else:
-                ctx.bad("C10.kinds", fn, n, f"a group member of class {cname} is referenced with an id escaped as {reps}: the reference does not point at the written object")
-    for need in ("SPECIE", "REACTION", "GENE"):
-        if need not in seen:
-            ctx.bad("C10.kinds", fn, call, f"group members of kind {need} are referenced without the id replacement of their kind")
+    if loop is None or not isinstance(loop, ast.For) or not isinstance(loop.target, ast.Name):
+        ctx.note("C10.kinds: group member references are not written in a loop over the members; not read")
+        return
+    var = loop.target.id
+    # the F_* constants of the module
+    unit = ctx.prog.unit(MOD)
+    consts = {}
+    for name, vals in unit.globals.items():
+        if name.startswith("F_") and vals and isinstance(vals[-1], ast.Constant):
+            consts[name] = vals[-1].value
+    problems = []
+    for cname, kind in (("Reaction", "REACTION"), ("Metabolite", "SPECIE"), ("Gene", "GENE")):
+        for with_table in (True, False):
+            written = []
+
+            class _Tagged:
+                def __init__(self, tag):
+                    self.tag = tag
+
+            table = {v: _Tagged(k) for k, v in consts.items()} if with_table else {}
+
+            def on_call(ev, c: ast.Call):
+                f = c.func
+                if isinstance(f, ast.Attribute) and f.attr == "setIdRef":
+                    written.append(ev.eval(c.args[0]))
+                    return None
+                if isinstance(f, ast.Attribute) and f.attr in ("createMember",):
+                    return Opaque("member")
+                if isinstance(f, ast.Name) and f.id == "type" and len(c.args) == 1:
+                    return f"<class 'cobra.core.{cname.lower()}.{cname}'>"
+                if isinstance(f, ast.Name) and f.id == "str" and len(c.args) == 1:
+                    v = ev.eval(c.args[0])
+                    return v if isinstance(v, str) else NotImplemented
+                if isinstance(f, ast.Name) and f.id == "isinstance" and len(c.args) == 2 and norm(c.args[0]) == var:
+                    names = [norm(x).split(".")[-1] for x in (c.args[1].elts if isinstance(c.args[1], ast.Tuple) else [c.args[1]])]
+                    return cname in names
+                if isinstance(f, ast.Subscript):
+                    tgt = ev.eval(f)
+                    if isinstance(tgt, _Tagged):
+                        return ("via", tgt.tag, ev.eval(c.args[0]))
+                return NotImplemented
+
+            def on_attr(ev, a: ast.Attribute):
+                if isinstance(a.value, ast.Name) and a.value.id == var and a.attr == "id":
+                    return "member-id"
+                if norm(a) in (f"{var}.__class__.__name__", f"type({var}).__name__"):
+                    return cname
+                return NotImplemented
+
+            ev = Evaluator({"f_replace": table, **consts}, on_call=on_call, on_attr=on_attr)
+            ev.loops = True
+            try:
+                ev.run(loop.body)
+            except (Unknown, EvalRaise) as exc:
+                ctx.note(f"C10.kinds: the group member loop cannot be evaluated ({exc}); member references not read")
+                return
+            want = [("via", f"F_{kind}_REV", "member-id")] if with_table else ["member-id"]
+            if written != want:
+                problems.append(f"a group member of class {cname} is referenced as {written!r}{' with' if with_table else ' without'} id replacements; expected {want!r} (its own id through the replacement of its own kind)")
+    if problems:
+        ctx.bad("C10.kinds", fn, call, problems[0] + (f" (+{len(problems) - 1} more)" if len(problems) > 1 else ""))
+    else:
+        for kind in ("SPECIE", "REACTION", "GENE"):
+            ctx.ok("C10.kinds", fn, f"member {kind}", f"group member of kind {kind}: id through f_replace[F_{kind}_REV] (evaluated)")
 
 
 def check_kinds_reader(ctx) -> None:
@@ -610,50 +660,86 @@ def check_fields(ctx) -> None:
 
 
 def check_annot(ctx) -> None:
+    """_parse_annotations evaluated on stand-in SBase objects whose CV terms list resources in a given order (the URI
+    parser is a stub that splits `provider|identifier`): the resulting annotation holds, per provider, every identifier
+    once - compared as list elements, never as substrings. No spelling of the merge is prescribed."""
+    from ..interp import Interp
+
     prog = ctx.prog
     fn = prog.func(MOD, "_parse_annotations")
-    merge = [n for n in walk_local(fn.node) if isinstance(n, ast.If) and norm(n.test) == "provider in annotation"]
-    if not merge:
-        raise AnalysisError("_parse_annotations: the merge step was not found")
-    st = merge[0]
-    problems = []
+
+    class _S:
+        pass
+
+    class _CV(_S):
+        def __init__(self, uris):
+            self.uris = list(uris)
+
+        def getNumResources(self):
+            return len(self.uris)
+
+        def getResourceURI(self, k):
+            return self.uris[k]
+
+        def getBiologicalQualifierType(self):
+            return 0
+
+        def getQualifierType(self):
+            return 1
+
+    class _SB(_S):
+        def __init__(self, terms, sbo=None):
+            self.terms, self.sbo = terms, sbo
+
+        def isSetSBOTerm(self):
+            return self.sbo is not None
+
+        def getSBOTermID(self):
+            return self.sbo
+
+        def getCVTerms(self):
+            return self.terms
+
+        def getNumCVTerms(self):
+            return len(self.terms or [])
+
+        def getCVTerm(self, k):
+            return self.terms[k]
+
+    def info(it_, ev, c, a, k):
+        uri = a[0]
+        if "|" not in uri:
+            return None
+        p_, i_ = uri.split("|", 1)
+        return (p_, i_)
+
     cases = [
-        ("first identifier", {}, "ec-code", "2.7.1.11", {"ec-code": "2.7.1.11"}),
-        ("second identifier", {"ec-code": "2.7.1.11"}, "ec-code", "1.1.1.1", {"ec-code": ["2.7.1.11", "1.1.1.1"]}),
-        ("second identifier is a substring of the first", {"ec-code": "2.7.1.11"}, "ec-code", "2.7.1.1", {"ec-code": ["2.7.1.11", "2.7.1.1"]}),
-        ("repeated identifier", {"ec-code": ["2.7.1.11", "1.1.1.1"]}, "ec-code", "1.1.1.1", {"ec-code": ["2.7.1.11", "1.1.1.1"]}),
-        ("identical single identifier", {"ec-code": "2.7.1.11"}, "ec-code", "2.7.1.11", {"ec-code": ["2.7.1.11"]}),
+        ("a single identifier", [["ec-code|2.7.1.11"]], None, {"ec-code": ["2.7.1.11"]}),
+        ("two identifiers of one provider", [["ec-code|2.7.1.11", "ec-code|1.1.1.1"]], None, {"ec-code": ["2.7.1.11", "1.1.1.1"]}),
+        ("the second identifier is a substring of the first", [["ec-code|2.7.1.11", "ec-code|2.7.1.1"]], None, {"ec-code": ["2.7.1.11", "2.7.1.1"]}),
+        ("a repeated identifier", [["ec-code|2.7.1.11", "ec-code|1.1.1.1"], ["ec-code|1.1.1.1"]], None, {"ec-code": ["2.7.1.11", "1.1.1.1"]}),
+        ("the same single identifier twice", [["ec-code|2.7.1.11"], ["ec-code|2.7.1.11"]], None, {"ec-code": ["2.7.1.11"]}),
+        ("three identifiers over two CV terms, two providers, an SBO term, an unparsable resource", [["kegg|C1", "chebi|CHEBI:1", "not a uri"], ["kegg|C2", "kegg|C10", "chebi|CHEBI:1"]], "SBO:0000247", {"sbo": ["SBO:0000247"], "kegg": ["C1", "C2", "C10"], "chebi": ["CHEBI:1"]}),
+        ("no CV terms", None, None, {}),
     ]
-    for label, start, provider, identifier, want in cases:
-        ann = {k: (list(v) if isinstance(v, list) else v) for k, v in start.items()}
-
-        def on_store(ev, target, value):
-            if isinstance(target, ast.Subscript) and norm(target.value) == "annotation":
-                ann[ev.eval(target.slice)] = value
-                return True
-            return False
-
-        def on_call(ev, c: ast.Call):
-            f = c.func
-            if isinstance(f, ast.Attribute) and f.attr == "append":
-                tgt = ev.eval(f.value)
-                if isinstance(tgt, list):
-                    tgt.append(ev.eval(c.args[0]))
-                    return None
-            return NotImplemented
-
-        ev = Evaluator({"annotation": ann, "provider": provider, "identifier": identifier}, on_store=on_store, on_call=on_call)
+    problems = []
+    for label, terms, sbo, want in cases:
+        sb = _SB(None if terms is None else [_CV(u) for u in terms], sbo)
+        it = Interp(prog, (_S,), [], {f"{MOD}._parse_annotation_info": info})
         try:
-            ev.stmt(st)
-        except (Unknown, EvalRaise) as exc:
-            raise AnalysisError(f"C10.annot: the annotation merge step cannot be evaluated: {exc}")
-        listed = lambda d: {k: ([v] if isinstance(v, str) else v) for k, v in d.items()}
-        if listed(ann) != listed(want):
-            problems.append(f"{label}: {start} + {identifier!r} -> {ann} (expected {want})")
+            got = it.call(fn, [sb], {})
+        except EvalRaise as exc:
+            problems.append(f"{label}: raises {exc.exc_type}")
+            continue
+        except Unknown as exc:
+            raise AnalysisError(f"C10.annot: _parse_annotations cannot be evaluated: {exc}")
+        listed = {k: ([v] if isinstance(v, str) else list(v)) for k, v in (got or {}).items()} if isinstance(got, dict) else got
+        if listed != want:
+            problems.append(f"{label}: resources {terms} are read as {got!r} (expected, as lists, {want})")
     if problems:
-        ctx.bad("C10.annot", fn, st, "; ".join(problems[:2]) + ": an annotation identifier is lost (or duplicated) on import")
+        ctx.bad("C10.annot", fn, fn.node, "; ".join(problems[:2]) + ": an annotation identifier is lost (or duplicated) on import")
     else:
-        ctx.ok("C10.annot", fn, st, f"{len(cases)} merge cases: identifiers are compared as list elements, never as substrings; duplicates collapse")
+        ctx.ok("C10.annot", fn, "merge", f"{len(cases)} resource sequences: per provider every identifier once, compared as list elements, never as substrings (evaluated)")
 
 
 def check_replace_defaults(ctx) -> None:
